@@ -31,6 +31,23 @@ var Group = curve.Secp256k1{}
 // recovered by the handler and kills the process.
 var PoolWorkers int
 
+// OwnFirst makes every party hand the library the signer list rotated so that its own identifier comes
+// first (each party a different order of the same set): the order in which an application lists the signers
+// must not matter.
+var OwnFirst bool
+
+func ownFirst(self party.ID, signers []party.ID) []party.ID {
+	if !OwnFirst {
+		return signers
+	}
+	for i, id := range signers {
+		if id == self {
+			return append(append([]party.ID{}, signers[i:]...), signers[:i]...)
+		}
+	}
+	return signers
+}
+
 var thePool *pool.Pool
 
 func pl() *pool.Pool {
@@ -209,13 +226,13 @@ func FrostRefreshTaproot(cfg map[party.ID]*frost.TaprootConfig, ids []party.ID) 
 
 func FrostSign(cfg map[party.ID]*frost.Config, signers []party.ID, msg []byte) *Spec {
 	return &Spec{Name: "frost-sign", IDs: signers, SessionID: []byte("sid"), Start: func(id party.ID) protocol.StartFunc {
-		return frost.Sign(cfg[id], signers, msg)
+		return frost.Sign(cfg[id], ownFirst(id, signers), msg)
 	}}
 }
 
 func FrostSignTaproot(cfg map[party.ID]*frost.TaprootConfig, signers []party.ID, msg []byte) *Spec {
 	return &Spec{Name: "frost-sign-taproot", IDs: signers, SessionID: []byte("sid"), Start: func(id party.ID) protocol.StartFunc {
-		return frost.SignTaproot(cfg[id], signers, msg)
+		return frost.SignTaproot(cfg[id], ownFirst(id, signers), msg)
 	}}
 }
 
@@ -235,20 +252,20 @@ func CMPRefresh(cfg map[party.ID]*cmp.Config, ids []party.ID) *Spec {
 
 func CMPSign(cfg map[party.ID]*cmp.Config, signers []party.ID, msg []byte) *Spec {
 	return &Spec{Name: "cmp-sign", IDs: signers, SessionID: []byte("sid"), Start: func(id party.ID) protocol.StartFunc {
-		return cmp.Sign(cfg[id], signers, msg, pl())
+		return cmp.Sign(cfg[id], ownFirst(id, signers), msg, pl())
 	}}
 }
 
 func CMPPresign(cfg map[party.ID]*cmp.Config, signers []party.ID) *Spec {
 	return &Spec{Name: "cmp-presign", IDs: signers, SessionID: []byte("sid"), Start: func(id party.ID) protocol.StartFunc {
-		return cmp.Presign(cfg[id], signers, pl())
+		return cmp.Presign(cfg[id], ownFirst(id, signers), pl())
 	}}
 }
 
 // CMPPresignFull is presigning immediately followed by signing in one session.
 func CMPPresignFull(cfg map[party.ID]*cmp.Config, signers []party.ID, msg []byte) *Spec {
 	return &Spec{Name: "cmp-presign-full", IDs: signers, SessionID: []byte("sid"), Start: func(id party.ID) protocol.StartFunc {
-		return presign.StartPresign(cfg[id], signers, msg, pl())
+		return presign.StartPresign(cfg[id], ownFirst(id, signers), msg, pl())
 	}}
 }
 
